@@ -74,6 +74,14 @@ func runPathSession(name []byte, up int, rpath []B) pathEvent {
 			os.WriteFile(filepath.Join(d, n), []byte("decoy"), 0o644)
 		}
 	}
+	blocked := false
+	if bytes.IndexByte(name, '/') < 0 && (len(name)+up)%7 == 3 {
+		// where the terminal's directory would be there is a regular file of that name: nothing can be stored for this terminal,
+		// and nothing is stored anywhere else instead
+		os.RemoveAll(phoneDir)
+		os.WriteFile(phoneDir, []byte("not a directory"), 0o644)
+		blocked = true
+	}
 	old, _ := os.Getwd()
 	if err := os.Chdir(cwd); err != nil {
 		die(err)
@@ -105,7 +113,7 @@ func runPathSession(name []byte, up int, rpath []B) pathEvent {
 	}
 	if len(name) <= 50 && len(name) > 0 && name[0] != 0 && name[len(name)-1] != 0 {
 		units = append(units, chunkBytes("JS", name, 0, content))
-		ev.Uploaded = true
+		ev.Uploaded = !blocked // (with a file in the directory's place nothing can be stored: only confinement is judged)
 	}
 	units = append(units, ctl(0x1212, body1211(name, 0, 3)))
 	conn := &scriptConn{segs: units}
@@ -258,6 +266,14 @@ func init() {
 				name = name[:255]
 			}
 			out.put(runPathSession(name, 0, nil))
+		}
+		// names whose last element is as long as a file name may be (243..255 bytes, with and without directories in front):
+		// whatever the handler does with a path it finds too long, nothing lands outside the terminal's directory
+		for ln := 243; ln <= 255; ln++ {
+			out.put(runPathSession(bytes.Repeat([]byte{'k'}, ln), 0, nil))
+			if ln%4 == 3 {
+				out.put(runPathSession(append([]byte("../"), bytes.Repeat([]byte{'k'}, ln-3)...), 0, nil))
+			}
 		}
 	}
 }
